@@ -39,6 +39,8 @@ def check(run):
         run.guard("C16.6.blanket-script-exception", cfg, lambda: rule_blanket_flag(run, F, cfg))
         run.guard("C16.7.label-walk", cfg, lambda: rule_label_walk(run, F, cfg))
         run.guard("C16.4.storing", cfg + "/hidden-generic", lambda: rule_hidden_generic_table(run, F, cfg))
+        run.guard("C16.1.hash-agreement", cfg + "/request-args", lambda: rule_request_hash_args(run, F, cfg))
+        run.guard("C16.8.independent-injections", cfg, lambda: rule_independent_injections(run, F, cfg))
         run.guard("C16.5.generichide", cfg, lambda: rule_generichide(run, F, cfg))
         b = run.borrow("C08", why="per-hostname cosmetic rules and exceptions must survive serialize/deserialize")
         run.guard("C16.via.C08.3.legacy-bijection", cfg, lambda: _C08.rule_legacy(b, F, cfg))
@@ -468,3 +470,45 @@ def rule_hidden_generic_table(run, F, cfg):
     run.ob("C16.7.label-walk", "entity-slices", same,
            "get_hostname_without_public_suffix: public_suffix = domain[dot+1..]; result = (hostname[0..len - "
            f"public_suffix.len() - 1], hostname[len - domain.len() + dot + 1..]) (found {idx})", site=h.loc(0), config=cfg)
+
+
+def rule_request_hash_args(run, F, cfg):
+    """the page's entity and hostname hashes are both computed from (hostname, registrable domain): labels in front
+    of the registrable domain take part in entity matching (`m.example.*` on m.example.com)"""
+    h = F.fn("cosmetic_filter_cache::hostname_domain_hashes")
+    run.touched(h)
+    calls = {strip_generics(t["callee"]).split("::")[-1]: [h.expr_operand(a) for a in t["args"]] for b, t in h.calls()}
+    p1, p2 = h.local_name(1), h.local_name(2)
+    ok = calls.get("get_entity_hashes_from_labels") == [p1, p2] and calls.get("get_hostname_hashes_from_labels") == [p1, p2]
+    run.ob("C16.1.hash-agreement", "request-hashes-from-hostname-and-domain", ok,
+           f"hostname_domain_hashes(hostname, domain) passes (hostname, domain) to both label walks ({calls})", site=h.loc(0), config=cfg)
+    f = F.fn("cosmetic_filter_cache::CosmeticFilterCache::hostname_cosmetic_resources")
+    hc = [f.vexpr_call(t) for b, t in f.calls(r"hostname_domain_hashes$")]
+    okc = len(hc) == 1 and bool(re.match(r"^cosmetic_filter_cache::hostname_domain_hashes\(\$hostname, ", hc[0])) and "get_host_domain" in f.expr_call(
+        [t for b, t in f.calls(r"hostname_domain_hashes$")][0])
+    run.ob("C16.1.hash-agreement", "domain-is-host-domain-of-hostname", okc,
+           f"the second argument is the slice of the hostname given by get_host_domain(hostname) ({hc})", config=cfg)
+
+
+def rule_independent_injections(run, F, cfg):
+    """get_scriptlet_resources resolves each `+js(...)` on its own: one that cannot be resolved (unknown name,
+    insufficient permission, ...) is skipped and does not affect the others"""
+    g = F.fn("resources::resource_storage::ResourceStorage::get_scriptlet_resources")
+    run.touched(g)
+    per = []
+    for c in F.closures_of(g.name):
+        calls = c.calls(r"ResourceStorage::get_scriptlet_resource$")
+        if calls:
+            b, t = calls[0]
+            # the Ok arm appends; nothing propagates an error out of the closure
+            nxt = c.blocks[t["t"]]["t"] if t.get("t") is not None else None
+            appends = [x for x, _ in c.calls(r"AddAssign<&str>>::add_assign$|String::push_str$")]
+            guarded = all(any(k.startswith("discr(") and "get_scriptlet_resource(" in k and v == 0
+                              for k, v in dominating_conditions(c, x).items()) for x in appends)
+            per.append((c.name.split("::")[-1], bool(appends) and guarded, c.expr_local(0)))
+    fe = g.calls(r"^std::iter::Iterator::for_each$")
+    failfast = g.calls(r"Iterator::(try_for_each|try_fold)$|^std::iter::Iterator::collect$|Try>::branch$")
+    run.ob("C16.8.independent-injections", "per-scriptlet-error-isolation", len(per) == 1 and per[0][1] and bool(fe) and not failfast,
+           "each injection is resolved inside the per-item closure of a for_each, its output appended only in the Ok arm, "
+           f"and no fail-fast combinator (`collect::<Result<..>>`, `?`, try_fold) aggregates them ({per}; fail-fast calls: "
+           f"{[strip_generics(t['callee']) for b, t in failfast]})", site=g.loc(0), config=cfg)
